@@ -11,6 +11,7 @@ Fuel: `evalExpr (fuel+1)` evaluates the operands of its expression with `fuel`; 
 below holds for every fuel (running out of fuel is the explicit error `Err.fuel`).
 -/
 import TeraModel.Lemmas.EvalOps
+import TeraModel.Lemmas.EvalFuel
 namespace Tera.C02Eval
 open Tera
 
@@ -79,6 +80,32 @@ example : evalExpr 9 env0 sc0 (.binary .And (.var "s") bomb) = .error .thrown :=
 example : evalExpr 9 env0 sc0 (.ternary (.var "z") bomb (.const (.u64 1))) = .ok (.u64 1) := by
   simp [evalExpr, sc0, Scope.root, Scope.getValue, Scope.resolve, Scope.loopsGet, Ctx.get,
     ForLoop.lookupCtx, Value.isTruthy, Value.isUndef]
+
+/-! ### fuel is only a recursion bound -/
+
+/-- `eval_fuel_irrelevant`: once an evaluation does not end in the explicit out-of-fuel outcome,
+every larger fuel gives the same result; so the statements of this file, made at the smallest
+fuel that evaluates the operands, hold for every larger fuel as well. -/
+theorem eval_fuel_irrelevant (env : Env) (n m : Nat) (hnm : n ≤ m) (sc : Scope) (e : Expr)
+    (r : Except Err Value) (h : evalExpr n env sc e = r) (hr : r ≠ .error .fuel) :
+    evalExpr m env sc e = r := by
+  have : m = n + (m - n) := by omega
+  rw [this]
+  exact (fuelLe_add env n (m - n)).expr sc e r h hr
+
+/-- `and_or_short_circuit` with the fuel quantified away: if the left operand of `and` evaluates
+(with some fuel) to a falsy value `a`, then with ANY larger fuel `l and r` is `a`, for EVERY right
+operand `r`; dually for `or`. -/
+theorem and_or_short_circuit_any_fuel (env : Env) (n m : Nat) (hm : n < m) (sc : Scope)
+    (l r : Expr) (a : Value) (h : evalExpr n env sc l = .ok a) :
+    (a.isTruthy = false → evalExpr m env sc (.binary .And l r) = .ok a)
+    ∧ (a.isTruthy = true → evalExpr m env sc (.binary .Or l r) = .ok a) := by
+  obtain ⟨h1, h2⟩ := and_or_short_circuit n env sc l r r a h
+  constructor
+  · intro ht
+    exact eval_fuel_irrelevant env (n + 1) m (by omega) sc _ _ (h1 ht).1 (by simp)
+  · intro ht
+    exact eval_fuel_irrelevant env (n + 1) m (by omega) sc _ _ (h2 ht).1 (by simp)
 
 /-! ## One level of undefined -/
 
